@@ -260,6 +260,41 @@ def after_failures(rep, vecs):
     rep.notes["refused_streams_before_second_pass"] = refused
 
 
+def mutation_isolation(rep, vecs):
+    """what the application does with the objects of one decode does not reach a later decode: AVPs of a decoded message are changed
+    in place (data, P bit), then the same stream is decoded again and compared with the specification"""
+    from bromelia.base import DiameterMessage
+
+    def mutate(avps, depth=0):
+        for a in avps:
+            try:
+                if isinstance(a.data, bytes) and a.data and not hasattr(a, "avps"):
+                    a.data = bytes((b ^ 0x01) if 48 <= b < 58 or 97 <= b < 123 else b for b in a.data)
+            except BaseException:
+                pass
+            try:
+                a.set_protected_bit(not a.is_protected())
+            except BaseException:
+                pass
+            inner = getattr(a, "avps", None)
+            if inner and depth < 3:
+                mutate(inner, depth + 1)
+    sel = vecs[::max(1, len(vecs) // 150)][:150]
+    for v in sel:
+        rep.case(("mutation-isolation", bytes(v["bytes"])))
+        try:
+            with guard(20, "load"):
+                for m in DiameterMessage.load(bytes(v["bytes"])):
+                    mutate(m.avps)
+        except BaseException:
+            continue
+        before = len(rep.violations)
+        check_vector(rep, v, {"kind": "stream-after-mutation", "bytes": bytes(v["bytes"]).hex()})
+        if len(rep.violations) > before:
+            rep.violations[-1]["what"] = "after the AVP objects of an earlier decode of the same stream were changed in place: " + rep.violations[-1]["what"]
+            return
+
+
 def run(rep):
     purity(rep)
     ref = wirex.ref_dictionary()
@@ -286,6 +321,8 @@ def run(rep):
             break
     if len(rep.violations) < 40:
         after_failures(rep, vecs)
+    if len(rep.violations) < 40:
+        mutation_isolation(rep, vecs)
     # the decoder must not depend on what it decoded before: second pass in reverse order
     if not rep.violations:
         for k, v in reversed(list(enumerate(vecs))):
